@@ -101,7 +101,7 @@ CLAIMED['C19'] = dict(
          'the documented endpoint and payload, success stores exactly the returned tokens/profile, every error reply raises '
          'YggdrasilError with status and error fields (or the Malformed message) for EVERY body shape, no credential field '
          'changes on a raising path (frame), validate true iff 204, join refuses without a request when not authenticated. '
-         '_make_request's own body is checked against a model of requests.post.',
+         'The one-line body of _make_request is checked against a model of requests.post.',
     note='Trusted: requests.post reply object contract, json.dumps uninterpreted, JSON bodies explored by shape (contents '
          'symbolic), string formatting modelled with z3 strings. A stub-of-requests.post grid on the real code runs alongside '
          '(bounded). Real HTTP encoding by requests is not covered.',
